@@ -1,4 +1,5 @@
 import Operon.Lemmas.C12
+import Operon.Lemmas.C12Str
 /-!
 # C12 — template rendering follows the documented grammar; bound values stay data
 
@@ -249,13 +250,33 @@ theorem c12_required_scan_witness :
   refine ⟨⟨kItem, [.text [91], .val [97, 98], .text [93], .text [91], .val [99, 100], .text [93]], rfl, by decide,
     by decide, by decide⟩, by decide, by decide, by decide, by decide, by decide, by decide⟩
 
--- STRETCH, NOT PROVED: `c12_str_eq_tok_brace_free` —
+/-! ## String layer = token layer (stretch `c12_str_eq_tok_brace_free`): proved for two of the nine scanners -/
+
+/-- PARTIAL of the stretch goal.  For the last two sub-passes of the variable pass — optional variables
+    `\{\{\?(\w+)\}\}` and simple variables `\{\{(\w+)\}\}` — the regex scanners of the STRING layer (the layer that is
+    run against the code) compute exactly the token layer's `tokC` / `tokD`, output text and warnings, on the printed
+    form of EVERY well-formed token list (text, values, defaults, whitespace without `{`; names made of word characters;
+    any mixture of all twelve token kinds, grammar or not), for every environment whose `\w` excludes the delimiter
+    characters and every context whose bound values contain no `{`.
+    Missing for the full statement: the same scanner argument (generic part: `scan_skip`; per scanner: "no hit inside
+    any other printed token, a hit exactly on its own token") for `matchFiltered`, `matchDefault` (plus `replaceAll` on
+    printed tokens for the snapshot-then-replace-everywhere of `passDefault`), the include scanner (same shape as the
+    optional one), and the two block scanners, where `lazyIf`/`findSub` must be shown to stop at the first `ifC`/`eachC`
+    TOKEN.  Until then the equality of the two layers is CHECKED on every generated case (`LAYER-DIFF`). -/
+theorem c12_str_eq_tok_brace_free_partial (cfg : Cfg) (hs : CfgSane cfg) (ctx : Ctx)
+    (htext : ∀ n, NoLB (textOf ctx n)) (ts : List Tok) (hw : ∀ t ∈ ts, t.wfp cfg) :
+    passOptional cfg ctx (printToks ts) = printToks (ts.flatMap (tokC cfg ctx)) ∧
+    passSimple cfg ctx (passOptional cfg ctx (printToks ts))
+      = .ok (printToks ((ts.flatMap (tokC cfg ctx)).flatMap (tokD cfg ctx)),
+             (ts.flatMap (tokC cfg ctx)).flatMap (warnD ctx)) := by
+  have h1 := passOptional_print cfg hs ctx htext ts hw
+  refine ⟨h1, ?_⟩
+  rw [h1]
+  exact passSimple_print cfg hs ctx htext _ (tokC_wfp cfg ctx htext ts hw)
+
+-- STRETCH, FULL STATEMENT NOT PROVED: `c12_str_eq_tok_brace_free` —
 --   ∀ cfg ctx fuel (t : Tmpl), Grammar t → text pieces, defaults, values free of `{` and `}` →
 --     (translate cfg ctx fuel (printToks (flatten t))).map (·.1) = (renderTok … (flatten t)).map (printToks ·.1)
--- i.e. the regex scanners of the string layer find exactly the tokens of the token layer.  What is missing is the
--- scanner-level argument (`lex (printToks ts) = ts` for grammar token lists and its analogue for each of the nine
--- scanners).  The equality is instead CHECKED on every generated case: the driver runs both layers and turns a
--- difference in the brace-free regime into a `LAYER-DIFF` observation, which fails the correspondence.
 
 /-! ## Non-vacuity: the hypotheses are satisfiable by non-trivial data -/
 
@@ -313,6 +334,19 @@ example : BF eCfg eCtx ∧ Grammar eTmpl ∧ GrammarReg eReg ∧
 
 /-- a template with every kind of construct has non-nested blocks: hypothesis of `c12_parse_flatten` -/
 example : (∀ s ∈ eTmpl, s.wf = true) ∧ parse (flatten eTmpl) = some eTmpl := by decide
+
+/-- every kind of token, grammar or not -/
+def eToks : List Tok :=
+  [Tok.text [120], Tok.opt [97], Tok.var [97], Tok.pipe [97] [117, 112], Tok.opt [122], Tok.var [122], Tok.dot,
+   Tok.els, Tok.inc [116], Tok.ifO [32] [102], Tok.text [125, 125]]
+
+/-- ASCII `\w` is sane; on a token list with every kind of token the two string-layer sub-passes and the token-layer
+    ones agree (hypotheses and conclusion of `c12_str_eq_tok_brace_free_partial` on concrete data; a test) -/
+example : CfgSane eCfg ∧
+    (passSimple eCfg eCtx (passOptional eCfg eCtx (printToks eToks))).toOption
+      = some (printToks ((eToks.flatMap (tokC eCfg eCtx)).flatMap (tokD eCfg eCtx)),
+              (eToks.flatMap (tokC eCfg eCtx)).flatMap (warnD eCtx)) :=
+  ⟨⟨by decide, by decide, by decide, by decide, by decide, by decide, by decide, by decide⟩, by decide⟩
 
 /-- strict mode over the same data fails (the loop variables `item`, `k`, `index` are unbound names of the template):
     hypotheses of `c12_missing_reported` (a) -/
